@@ -138,6 +138,7 @@ pub fn profile_for(prop: usize, fi: bool) -> Profile {
         8 => {
             p.faults = &["N-DROP", "N-PART", "P-CRASH-S", "P-CRASH-C", "N-DELAY", "N-DUP"];
             p.engines = true;
+            p.fuzz = TextFuzz::Siblings;
             p.policy_w = [30, 20, 0, 50];
         }
         9 => {
@@ -1261,6 +1262,20 @@ impl World {
         for _ in 0..nmasks {
             let bb = self.random_mask(&pos, &lm);
             self.eop(c, task, EOp::SetMask(bb))?;
+            if !lm.is_empty() && self.rng.chance(1, 4) {
+                // exclusion after the mask was chosen but before it is iterated (still "beforehand")
+                if self.rng.chance(1, 2) {
+                    let mv = *self.rng.pick(&lm);
+                    self.eop(c, task, EOp::RemoveMove(mv))?;
+                } else {
+                    // all masked destinations of one piece
+                    let src = self.rng.pick(&lm).from;
+                    let m2 = lm.iter().filter(|m| m.from == src && (bb & (1u64 << m.to)) != 0).fold(0u64, |a, m| a | (1u64 << m.to));
+                    if m2 != 0 {
+                        self.eop(c, task, EOp::RemoveMask(m2))?;
+                    }
+                }
+            }
             self.drain_mask(c, task)?;
             // between passes a search routine may exclude more moves (killer already tried, bad captures ...)
             if !lm.is_empty() && self.rng.chance(1, 4) {
@@ -1704,6 +1719,16 @@ impl World {
                         }
                         _ => self.mutate_text(&base),
                     };
+                    if pos.ep_pawn_beside() && self.rng.chance(1, 3) {
+                        // the same text against the position and against its twin without en-passant state, back to back
+                        let mut q = pos.clone();
+                        q.ep = None;
+                        let ep_texts: Vec<String> = lm.iter().filter(|m| pos.is_ep(**m)).flat_map(|m| san_spellings(&pos, *m).into_iter().map(|s| s.text())).collect();
+                        let t2 = if !ep_texts.is_empty() && self.rng.chance(2, 3) { self.rng.pick(&ep_texts).clone() } else { text.clone() };
+                        let (f1, f2) = if self.rng.chance(1, 2) { (fen.clone(), q.fen()) } else { (q.fen(), fen.clone()) };
+                        self.op(Op::DecodeSan { fen: f1, text: t2.clone() })?;
+                        self.op(Op::DecodeSan { fen: f2, text: t2 })?;
+                    }
                     self.op(Op::DecodeSan { fen: fen.clone(), text })?;
                 }
             }
@@ -1730,7 +1755,7 @@ impl World {
                         }
                         9 | 10 => {
                             // white space and line terminators around an otherwise valid text
-                            let ws = *self.rng.pick(&["\n", "\r", "\r\n", "\t", " ", "\u{b}", "\u{a0}"]);
+                            let ws = *self.rng.pick(&["\n", "\r", "\r\n", "\t", " ", "\u{b}", "\u{a0}", "\u{feff}", "\u{200b}", "\u{2060}", "\u{200e}", "\u{0}"]);
                             let t = match self.rng.below(3) {
                                 0 => format!("{}{}", ws, base),
                                 1 => format!("{}{}", base, ws),
@@ -1753,6 +1778,15 @@ impl World {
                             }
                             t.push_str(tail);
                             self.op(Op::DecodeUci { text: t })?
+                        }
+                        3 if self.rng.chance(1, 6) => {
+                            // tokens with a special meaning in neighbouring protocols
+                            let t = *self.rng.pick(&["0000", "(none)", "null", "NULL", "none", "--", "@@@@", "a1a1", "O-O", "0-0", "e1g1", "e8c8", "0000q", "a0a0", "i1i2", "h9h8"]);
+                            if self.rng.chance(1, 4) {
+                                self.op(Op::DecodeSquare { text: t.to_string() })?
+                            } else {
+                                self.op(Op::DecodeUci { text: t.to_string() })?
+                            }
                         }
                         0 | 1 | 2 | 3 => self.op(Op::DecodeUci { text: base })?,
                         4 => {
